@@ -365,3 +365,58 @@ class FnGenerateHistoryWhole(_Whole):
             yield "second_call:weight_is_the_nested_sites_weight_alone", same(w2, Sym(self.g3.GenW(a3, enc(self.c2["z"]), xs[2].arg(2))))
         x1_now = self.leaves(tr1.get_choices())
         yield "first_calls_trace_untouched_by_the_later_calls", x1_now is not None and all(z3.eq(u, v) for u, v in zip(x1_now, self.x1)) and z3.eq(_lift(tr1.get_score()), self.score1)
+
+
+@contract("genjax.core:Fn.generate", ["C02", "C05"])
+class FnGenerateOtherAddressesHistory(Contract):
+    """history over a program whose ADDRESS SET depends on an argument (one site per data point): the same @gen
+    function object is first run on 2 points (simulate or generate), then generate is called on 3 points with a
+    constraint on the new address y2 only - that address must hold the constrained value, with the site's weight
+    (nothing learnt about the function in an earlier call may decide how a later call treats its constraints)"""
+
+    kind = "bounded"
+    cases = ["simulate_2_points_then_generate_3_points_constraining_y2", "generate_2_points_then_generate_3_points_constraining_y2"]
+
+    def replay(self, case, clause, model, path):
+        from .native import run_native
+
+        return run_native("gfi_battery", "generic")
+
+    def call(self, case):
+        self.g = AbsGF("site")
+        g = self.g
+
+        def body(a, n):
+            out = []
+            for i in range(n):
+                out.append(core.Thunk(g, (a, i), {}) @ ("y%d" % i))
+            return tuple(out)
+
+        self.f = core.Fn(core.Const(body))
+        core.handler_stack.clear()
+        self.a, self.c0, self.c = value("a"), value("c0"), value("c")
+        if case.startswith("simulate"):
+            self.real(self.f.simulate, self.a, 2)
+        else:
+            self.real(self.f.generate, {"y0": self.c0}, self.a, 2)
+        return self.real(self.f.generate, {"y2": self.c}, self.a, 3)
+
+    def ensures(self, case, path):
+        yield "does_not_raise", path.outcome == "return"
+        if path.outcome != "return":
+            core.handler_stack.clear()
+            return
+        tr, w = path.value
+        ch = tr.get_choices()
+        ok = isinstance(ch, dict) and set(ch) == {"y0", "y1", "y2"} and all(isinstance(v, Sym) for v in ch.values())
+        yield "second_call:one_choice_per_data_point", ok
+        if not ok:
+            return
+        g = self.g
+        a2 = enc_args((self.a, 2), {})
+        y2 = ch["y2"].e
+        gen = _is_app(y2, g.GenX) and z3.simplify(z3.And(y2.arg(0) == a2, y2.arg(1) == enc(self.c)))
+        yield "second_call:the_new_address_is_generated_on_its_constraint", gen
+        yield "second_call:unconstrained_addresses_are_fresh_draws", _is_app(ch["y0"].e, g.DrawF) and _is_app(ch["y1"].e, g.DrawF)
+        if _is_app(y2, g.GenX):
+            yield "second_call:weight_is_the_constrained_sites_weight", same(w, Sym(g.GenW(a2, enc(self.c), y2.arg(2))))
